@@ -180,6 +180,17 @@ class Summaries:
             return self._must[key]
         self._must[key] = False
         res = C.must_pass_through(func, lambda e: self.elem_must(func, e, names))
+        if not res:
+            # a call sequence driven by a table (for each row: row.fn()): whether every path makes the call depends on
+            # the table's contents and the loop bounds - not decidable by a path rule, and not a "no"
+            for c in func.calls():
+                if c.get('callee') is None and C.in_loop(func, c):
+                    cs = self.site(func, c)
+                    if cs is not None and len(cs.targets) > 1 and any(self._tname(t) in names for t in cs.targets):
+                        from .facts import AnalysisBroken
+                        raise AnalysisBroken('%s reaches %s only through a table of functions walked in a loop: the '
+                                             'must-call rules do not decide table-driven sequences' % (
+                                                 func.name, '/'.join(sorted(names))[:60]))
         self._must[key] = res
         return res
 
@@ -205,7 +216,9 @@ class Summaries:
         """every execution of a `then` call inside func (transitively) is preceded,
         on every path from func's entry, by a `first` call.  Returns (ok, witness)."""
         if depth > 6:
-            return False, 'inlining bound exceeded in %s' % func.name
+            from .facts import AnalysisBroken
+            raise AnalysisBroken('ordering rule: inlining bound exceeded in %s (calls nested deeper than 6, or a cycle through a '
+                                 'table of functions): not decided' % func.name)
         for b in func.blocks.values():
             for e in b.elems:
                 if not self.elem_may(func, e, then):
